@@ -319,6 +319,49 @@ pub fn work(ctx: &Ctx, rep: &mut Report) {
         }
         rep.count("state_product_round_trips", done);
     }
+    // (e) parameter lists around the caps (32 parameters, 6 sub-parameters, 65535), cut at EVERY
+    // position: the dump has to carry whatever the parser remembers about an over-long list
+    {
+        let mut seqs: Vec<String> = Vec::new();
+        for n in [31usize, 32, 33, 34, 35, 40] {
+            let list: Vec<String> = (0..n).map(|i| ((i * 7 + 3) % 10).to_string()).collect();
+            let modes: Vec<String> = (0..n).map(|i| ["4", "20", "3", "6"][i % 4].to_string()).collect();
+            let dec: Vec<String> = (0..n).map(|i| ["25", "7", "6", "1", "12"][i % 5].to_string()).collect();
+            seqs.push(format!("\x1b[{}m", list.join(";")));
+            seqs.push(format!("\u{9b}{}h", modes.join(";")));
+            seqs.push(format!("\x1b[{}l", modes.join(";")));
+            seqs.push(format!("\x1b[?{}h", dec.join(";")));
+            seqs.push(format!("\x1b[?{}l", dec.join(";")));
+            seqs.push(format!("\x1bP{}q", list.join(";")));
+        }
+        for k in [5usize, 6, 7, 8] {
+            seqs.push(format!("\x1b[38{}m", ":7".repeat(k)));
+            seqs.push(format!("\x1b[1;38:2{};4m", ":9".repeat(k)));
+        }
+        seqs.push("\x1b[65535;65536;99999999999H".into());
+        seqs.push("\x1b[1;2;3;4;5;6;7;8;9;10;11;12;13;14;15;16;17;18;19;20;21;22;23;24;25;26;27;28;29;30;31;32;33H".into());
+        let mut units: Vec<(usize, usize)> = Vec::new();
+        for (si, sq) in seqs.iter().enumerate() {
+            for cut in 0..=sq.chars().count() {
+                units.push((si, cut));
+            }
+        }
+        for u in ctx.units(units.len()) {
+            let (si, cut) = units[u];
+            let chars: Vec<char> = seqs[si].chars().collect();
+            let mut h = History::new(9, 4, None);
+            h.calls.push(Call::FeedStr(format!("ab\x1b[2;2H{}", chars[..cut].iter().collect::<String>())));
+            h.meta.push(("dump_at".into(), 1));
+            h.calls.push(Call::FeedStr(chars[cut..].iter().collect()));
+            for p in ["X", "\r\nY\x1b[KZ", "\x1b[1;1HQ", "\x1b[999;999HWW", "abc\x1b[2;2Hd"] {
+                h.calls.push(Call::FeedStr(p.to_string()));
+            }
+            c11_history(&h, rep);
+        }
+        if ctx.shard == 0 {
+            rep.count("cuts_of_capped_parameter_lists", units.len() as u64);
+        }
+    }
     // (c) every cut of short histories (also inside ESC/CSI/DCS/OSC and parameter lists)
     let m = ctx.scale(2000, 30_000);
     let sprof = Profile::general().boost(&[T_SGR, T_MODE, T_STR, T_MALFORMED, T_ALT, T_SAVE], 3).resizes(0).length((1, 1), (2, 5)).size(8, 4);
